@@ -94,15 +94,19 @@ package zapcore
 //@   modifies e.err
 //@   ensures e.err == nil
 
+// every cause of an error group is expanded by the same rule as a top-level error (message, causes,
+// verbose form): exactly one encodeError("error", cause, enc), whatever the cause is (C02)
 //@ func (*zapcore.errArrayElem).MarshalLogObject
-//@   props C10 C01
+//@   props C10 C01 C02
 //@   refines zapcore.ObjectMarshaler.MarshalLogObject
 //@   flags nopanic
 //@   requires e != nil && enc != nil && encObj(enc)
 //@   assumes e.err != nil
+//@   track EE = call zapcore.encodeError
 //@   modifies $user, fields(zapcore.jsonEncoder), buffer.Buffer.bs, comp(E:uint8), fields(zapcore.errArrayElem), fields(zapcore.sliceArrayEncoder)
 //@   ensures encObj(enc)
 //@   ensures encFrame(enc)
+//@   ensures #EE == 1 && EE.arg0[0] == "error" && EE.arg1[0] == old(e.err) && EE.arg2[0] == enc && result == EE.ret0[0]
 
 //@ func (zapcore.errArray).MarshalLogArray
 //@   props C10 C01 C08
